@@ -16,6 +16,7 @@ const VAL_FORMS = {
   negNum: () => ['-1', 'number'], template: () => ['`t${N0}`', 'string'], ident: () => ['V0', 'object'], identStr: () => ['S0', 'string'],
   call: () => ['mk0()', 'object'], objLit: () => ['{ x: 1, y: [2] }', 'object'], arrLit: () => ['[1, "two"]', 'unknown[]'], member: () => ['H.v', 'object'],
   cond: () => ['N0 > 0 ? "pos" : "neg"', 'string'], newExpr: () => ['new Date(0)', 'Date'], undef: () => ['undefined', 'string'],
+  undefBool: () => ['undefined', 'boolean'], undefBoolUnion: () => ['undefined', 'boolean | string'],
   jsxElement: () => ['<i class="x">{N0}</i>', 'object'], jsxFragment: () => ['<>frag</>', 'object'], jsxInObject: () => ['{ icon: <b /> }', 'object'],
 };
 // the same, reading module constants that are declared AFTER the defineComponent call: a static non-literal default sits
@@ -39,7 +40,7 @@ function buildCase(rng) {
   const lateDecls = [];
   let usesLate = false;
   const spec = { props: [] };
-  const dyn = rng.pick(['static', 'static', 'static', 'identifier', 'spread', 'computedIdentKey', 'computedCallKey', 'empty']);
+  const dyn = rng.pick(['static', 'static', 'static', 'identifier', 'spread', 'computedIdentKey', 'computedCallKey', 'empty', 'computedGetterKey']);
   for (const k of keys) {
     const fnTyped = rng.bool(0.35);
     const form = rng.pick(['none', 'keyvalue', 'keyvalue', 'keyvalue', 'getter', 'method', 'asyncMethod', 'shorthand', 'generatorMethod']);
@@ -100,7 +101,7 @@ function buildCase(rng) {
     const target = spec.props[0];
     decls.push(`const KEYNAME = ${JSON.stringify(target.key)};`, 'const keyOf = () => KEYNAME;');
     const others = entries.filter((e) => !new RegExp(`^(get |async )?(${target.key.replace('$', '\\$')}|["'\\[]+${target.key.replace('$', '\\$')}["'\\]]+)[:( ]|^${target.key.replace('$', '\\$')}$`).test(e));
-    defaultSrc = `{ ${[...others, `[${dyn === 'computedIdentKey' ? 'KEYNAME' : 'keyOf()'}]: ${target.fnTyped ? 'helperFn' : 'V0'}`].join(', ')} }`;
+    defaultSrc = dyn === 'computedGetterKey' ? `{ ${[...others, `get [KEYNAME]() { return ${target.fnTyped ? 'helperFn' : 'V0'}; }`].join(', ')} }` : `{ ${[...others, `[${dyn === 'computedIdentKey' ? 'KEYNAME' : 'keyOf()'}]: ${target.fnTyped ? 'helperFn' : 'V0'}`].join(', ')} }`;
     target.hasDefault = true;
   }
   feat.push(`dyn:${dyn}`);
@@ -119,6 +120,17 @@ export function* generate({ tier, seed }) {
     const c = buildCase(rng);
     if (!c.spec.props.length) continue;
     yield { gid: `C18-${i}`, src: c.src, syntax: 'tsx', spec: c.spec, feature: c.feature, variants: [{ vid: 'v0', options: { resolveType: true } }] };
+  }
+  // several components sharing one named props type, each with different defaults (or none)
+  const DEF = ['{ size: 1, label: "small" }', '{ size: 10 }', '{ label: "only-label", flag: true }', '{}', null, '{ size: N0, label: S0 }', 'DYN0'];
+  for (let i = 0; i < (tier === 'quick' ? 300 : 5000); i++) {
+    const k = 2 + rng.int(2);
+    const picks = Array.from({ length: k }, () => rng.pick(DEF));
+    const decl = rng.pick(['interface Props { size?: number; label?: string; flag?: boolean }', 'type Props = { size?: number; label?: string; flag?: boolean };', 'interface Base { size?: number }\ninterface Props extends Base { label?: string; flag?: boolean }']);
+    const L = ['import { defineComponent } from "vue";', 'const N0 = 3;', 'const S0 = "s-zero";', 'const DYN0 = { size: 77 };', decl];
+    picks.forEach((d, j) => L.push(`export const C${j} = defineComponent(${rng.bool() ? `(props: Props${d ? ' = ' + d : ''}) => () => null` : `function (props: Props${d ? ' = ' + d : ''}) { return () => null; }`});`));
+    L.push(`export const EXP = [${picks.map((d) => `() => (${d ?? '{}'})`).join(', ')}];`);
+    yield { gid: `C18-shared-${i}`, src: L.join('\n') + '\n', syntax: 'tsx', spec: { multi: k, keys: ['size', 'label', 'flag'], props: [{ key: 'size' }] }, feature: `sharedType|${picks.map((d) => (d ? d.replace(/[^a-zA-Z0-9]/g, '').slice(0, 10) : 'none')).join('/')}|dyn:static`, variants: [{ vid: 'v0', options: { resolveType: true } }] };
   }
 }
 
@@ -155,6 +167,24 @@ export async function check(group, records) {
       return [violated({ ...base, oracle: 'module loads', sig: `C18/load-error/${error.name}/${String(error.message).replace(/\W+/g, '_').slice(0, 30)}`, detail: error })];
     }
     const calls = rt.log.filter((e) => e.k === 'defineComponent');
+    if (group.spec.multi) {
+      // several components typed by the same named type, each with its own default object
+      if (calls.length !== group.spec.multi) return [inconclusive({ ...base, reason: `expected ${group.spec.multi} defineComponent calls, saw ${calls.length}` })];
+      const exps = ns.EXP;
+      const outs = [];
+      calls.forEach((c, ci) => {
+        const propsI = (c.extraOptions || {}).props || {};
+        const expected = exps[ci]();
+        for (const key of group.spec.keys) {
+          const pb = { ...base, feature: `${group.feature}|c${ci}|${key}` };
+          const r = resolveAbsentProp(propsI[key], {});
+          const want = Object.prototype.hasOwnProperty.call(expected, key) ? expected[key] : (propsI[key] && [].concat(propsI[key].type).includes(Boolean) ? false : undefined);
+          if (!same(r.value, want)) outs.push(violated({ ...pb, oracle: 'every component resolves its own written defaults', sig: `C18/shared-type/default-differs/component-${ci === 0 ? 'first' : 'later'}`, detail: { key, resolved: short(String(r.value)), written: short(String(want)) } }));
+          else outs.push(held({ ...pb, events: { defaults_resolved: 1 } }));
+        }
+      });
+      return outs;
+    }
     if (calls.length !== 1) return [inconclusive({ ...base, reason: `expected 1 defineComponent call, saw ${calls.length}` })];
     const props = (calls[0].extraOptions || {}).props;
     if (!props) return [violated({ ...base, oracle: 'props option received', sig: 'C18/props-option-missing', detail: short(calls[0].extraOptions) })];
